@@ -434,6 +434,8 @@ var tiers = map[string]map[string]tierSpec{
 		"C13":     {4800, 300, 150},
 		"C14":     {4000, 250, 150},
 		"C16":     {4000, 250, 150},
+		"C06":     {4800, 300, 150},
+		"C12":     {3200, 200, 150},
 	},
 	"thorough": {
 		"default": {200000, 400, 1200},
